@@ -92,6 +92,6 @@ CHECKS['C18'] = ('model_checking',
   'DESIGN.md 3/C18')
 CHECKS['C19'] = ('model_checking',
   'recording stand-in for the database driver; every reached model / attack-graph state exported and compared; import replayed under every permutation of the answer rows',
-  'py2neo.Graph is replaced by a recording stand-in that answers the two Cypher query shapes get_model sends with their Cypher meaning: for every distinct model reached by bounded edit histories (plus pairs linked by two association types, one type in both directions, self-links, same-named associations between subtypes) the created Subgraph must hold one node per asset and one relationship per direction of every linked pair labelled with the field name; get_model against what was exported must reconstruct the same assets and links under EVERY order of the answer rows, and also when the model's attack graph was ingested into the same database; every attack-graph state of the C09 search is exported and compared node by node and edge by edge.',
+  'py2neo.Graph is replaced by a recording stand-in that answers the two Cypher query shapes get_model sends with their Cypher meaning: for every distinct model reached by bounded edit histories (plus pairs linked by two association types, one type in both directions, self-links, same-named associations between subtypes) the created Subgraph must hold one node per asset and one relationship per direction of every linked pair labelled with the field name; get_model against what was exported must reconstruct the same assets and links under EVERY order of the answer rows, and also when the attack graph of the model was ingested into the same database; every attack-graph state of the C09 search is exported and compared node by node and edge by edge.',
   'Trusted: py2neo Node/Relationship/Subgraph and the stand-in\'s reading of the two Cypher strings. Defense values and attackers are not exported by the library.',
   'DESIGN.md 3/C19')
